@@ -123,15 +123,15 @@ Proof.
   replace (p + zlen ft) with (p + 2) by lia. apply HQ. lia.
 Qed.
 
-(* the skip of an unknown packet: seek(data_size, 1) *)
-Hypothesis HO : E EOverflow.
+(* the skip of an unknown packet: try: seek(data_size, 1) except OverflowError: raise error *)
 Lemma skip_spec data_size p (Q : unit -> Z -> Prop) : 0 <= p -> 0 <= data_size ->
-  (forall p', p <= p' -> Q tt p') -> pspecE E (p_seek data_size 1) d p Q.
+  (forall p', p <= p' -> Q tt p') ->
+  pspecE E (pcatch (p_seek data_size 1) (fun e => exc_eqb e EOverflow) (fun _ => praise EMutagen)) d p Q.
 Proof.
-  intros Hp Hds HQ. unfold pspecE, p_seek.
-  destruct (in_ssize data_size); cbn [negb]; [|exact HO].
+  intros Hp Hds HQ. apply pspecE_catchM; [exact HM|]. unfold pspecE, p_seek.
+  destruct (in_ssize data_size); cbn [negb]; [|right; reflexivity].
   replace (1 =? 0) with false by reflexivity. replace (1 =? 1) with true by reflexivity.
-  destruct (c04_two63 - 1 - p <? data_size); [exact HO|]. apply HQ. lia.
+  destruct (c04_two63 - 1 - p <? data_size); [right; reflexivity|]. apply HQ. lia.
 Qed.
 
 Lemma sv8_loop_spec : forall fuel sh rg st ft p,
@@ -254,13 +254,8 @@ Proof.
 Qed.
 End WithE.
 
-Theorem musepack_load_partial d : c04_input d ->
-  match musepack_load d with Ok _ => True | Raise e => e = EMutagen \/ e = EOverflow end.
+Theorem musepack_total d : c04_input d -> total (musepack_load d).
 Proof.
-  intros [Hb Hl]. unfold musepack_load.
-  pose proof (mpc_init_spec (fun e => e = EMutagen \/ e = EOverflow) (or_introl eq_refl) d Hb Hl
-                (or_intror eq_refl) (mpc_fuel d)) as H.
-  unfold pspecE, prun in *. 
-  assert (Hf : zlen d < Z.of_nat (mpc_fuel d)) by (apply lin_fuel_gt; lia).
-  specialize (H Hf). destruct (mpc_init (mpc_fuel d) d 0) as [[a|e] p]; cbn; auto.
+  intros [Hb Hl]. unfold musepack_load. eapply total_prun.
+  apply (mpc_init_spec isM eq_refl d Hb Hl). apply lin_fuel_gt; lia.
 Qed.
